@@ -68,4 +68,10 @@ META["C19"] = {
     "technique": "property-based testing (rapid) over operation histories; oracle: reflect-based deep snapshot equality against a fresh decode / the pre-state",
 }
 
+META["C10"] = {
+    "text": "Property-based exploration with spy keys and an independent RFC 9338 structure builder working from the wire bytes: exact ToBeSigned bytes for new and existing countersignatures over decoded parents of all four kinds, differential and model verdicts for the binding of a real countersignature after each kind of change, and a completely enumerated refusal table. Exploration is the right level for the parent/encoding/external-data space; the refusal table is finite and enumerated.",
+    "note": TRUST,
+    "technique": "property-based testing (rapid) with recording signer/verifier vs reference Countersign_structure; differential + metamorphic binding verdicts; enumerated refusal table",
+}
+
 NOT_APPLICABLE = {}
